@@ -311,3 +311,24 @@ theorem queryStage_filter {sch orc root seqs} : ∀ (q : List (Bytes × List Byt
       · exact ih _
 
 end GB.C04
+
+namespace GB.C04
+
+theorem parseDigits_some {s : Bytes} {n : Nat} (h : parseDigits s = some n) : s ≠ [] ∧ s.all isDigit = true := by
+  unfold parseDigits at h
+  cases he : s.isEmpty
+  · cases ha : s.all isDigit
+    · simp [he, ha] at h
+    · refine ⟨?_, rfl⟩
+      intro hs; subst hs; simp at he
+  · simp [he] at h
+
+theorem parseInt_cons (c : UInt8) (rest : Bytes) (bits : Nat) : parseInt (c :: rest) bits =
+    match parseDigits (if c == 43 || c == 45 then rest else c :: rest) with
+    | none => none
+    | some n =>
+      if !(c == 45) && n ≥ 2 ^ (bits - 1) then none
+      else if (c == 45) && n > 2 ^ (bits - 1) then none
+      else some (if c == 45 then -(n : Int) else (n : Int)) := rfl
+
+end GB.C04
